@@ -115,7 +115,7 @@ theorem refd_status (P : Prog) (s : State) (k t : Nat) (hk : k < P.n) (ht : t < 
 theorem otherRel_ho {s : State} {k : Nat} {a b : Th} (h : OtherRel s k a b) :
     (b.hoSeq = a.hoSeq ∧ b.code = a.code ∧ (b.status = a.status ∨ (a.status = .exited ∧ b.status = .joined))) ∨
     (a.status = .notCreated ∧ b.hoSeq = 0 ∧ b.code = [] ∧ b.status = .created) := by
-  rcases h with rfl | rfl | ⟨h0, _, rfl⟩ | ⟨h0, rfl⟩
+  rcases h with rfl | rfl | ⟨h0, _, _, rfl⟩ | ⟨h0, rfl⟩
   · exact Or.inl ⟨rfl, rfl, Or.inl rfl⟩
   · exact Or.inl ⟨rfl, rfl, Or.inl rfl⟩
   · exact Or.inr ⟨h0, rfl, rfl, rfl⟩
